@@ -251,7 +251,7 @@ func (state *RuntimeState) webauthnAuthFinish(w http.ResponseWriter, r *http.Req
 		return
 	}
 	w.(*instrumentedwriter.LoggingWriter).SetUsername(authData.Username)
-	profile, ok, _, err := state.LoadUserProfile(authData.Username)
+	profile, ok, fromCache, err := state.LoadUserProfile(authData.Username)
 	if err != nil {
 		logger.Printf("loading profile error: %v", err)
 		http.Error(w, "error", http.StatusInternalServerError)
@@ -345,7 +345,11 @@ func (state *RuntimeState) webauthnAuthFinish(w http.ResponseWriter, r *http.Req
 		if ok {
 			u2fReg.Counter = parsedResponse.Response.AuthenticatorData.Counter
 			profile.U2fAuthData[credentialIndex] = u2fReg
-			go state.SaveUserProfile(authData.Username, profile)
+			// A profile that came from the cache may be stale: authentication
+			// proceeds, but it must not be written back over the primary.
+			if !fromCache {
+				go state.SaveUserProfile(authData.Username, profile)
+			}
 		}
 
 		verifiedAuth = AuthTypeU2F
